@@ -1547,6 +1547,11 @@ func ruleC20Support(e *Env) {
 			case *ssa.Function:
 				acc = x
 			}
+			if acc != nil {
+				if o := flow.Origin(acc); o != nil && len(o.Blocks) > 0 {
+					acc = o // a named generic function: the body, not the instantiation wrapper
+				}
+			}
 			if acc == nil || len(acc.Params) != 1 || len(acc.Blocks) == 0 {
 				und, at = "the returned accessor is not a function literal or function of one parameter", ret
 				continue
